@@ -152,6 +152,22 @@ def r4_bridge_failures(ctx):
                               f"a {nm} message ends recv_events with {p.exit[0]} and {len(sh)} shutdown call(s); it must shut the executors down and raise")
             else:
                 ctx.ok("C05.R4", loc(fi), f"{nm} -> shutdown + raise")
+    # a failure arriving in the same batch as an event must still fail the run
+    from ..evalx import AnyKeyDict as _AKD
+    pub = Obj(MSG + "DatasetPublished", {"origin": worker("H1"), "ds": ds("D", "T"), "transmit_idx": None}, name="PUB")
+    tf = Obj(MSG + "TaskFailure", {"worker": worker("H1"), "task": "t", "detail": "d"}, name="TF")
+    for batch in ([pub, tf], [tf, pub]):
+        ip = Interp(repo, max_while=2, max_iter=0, call_models={
+            "cascade.executor.comms.Listener.recv_messages": lambda run, a, k, n, f, _b=batch: list(_b) if not getattr(run, 'model_sent', False) and not setattr(run, 'model_sent', True) else []})
+        env = {"self.heartbeat_checker": _AKD(True, Obj("cascade.executor.comms.GraceWatcher", {}, name="gw"), "heartbeat_checker"), "self.sender.hosts": {}}
+        for p in ip.explore(fi, env=env):
+            sh = [e for e in p.effects if is_call(e, qual=f"{BR}.shutdown")]
+            if p.exit[0] != "raise" or not sh:
+                ctx.violation("C05.R4", fi.qual, loc(fi), "failure in the same batch as an event",
+                              f"messages {[m.name for m in batch]} drained in one batch: recv_events ends with {p.exit[0]} and {len(sh)} shutdown call(s); the failure was acknowledged "
+                              f"to its sender and is forgotten here, so the controller waits for ever for a task that failed")
+            else:
+                ctx.ok("C05.R4", loc(fi), f"batch {[m.name for m in batch]} -> shutdown + raise")
     # exception inside the loop -> same
     ip = Interp(repo, max_while=1, raising=lambda d: d["name"].endswith("recv_messages"))
     for p in ip.explore(fi):
@@ -208,6 +224,22 @@ def r7_teardown(ctx):
     risky = ("callback", "join", "shutdown")
     ip = Interp(repo, raising=lambda d: d["name"].rsplit(".", 1)[-1] in risky,
                 call_models={("method", "is_alive"): lambda *a: True})
+    for shm_alive in (True, False):
+        for ds_alive in (True, False):
+            def alive(run, a, k, n, f, _s=shm_alive, _d=ds_alive):
+                who = vkey(run.cur_call.get("recv")) + run.cur_call.get("name", "")
+                return _s if "shm" in who else _d
+            ip2 = Interp(repo, call_models={("method", "is_alive"): alive})
+            for p in ip2.explore(fi, env={**base, "self.terminating": False}):
+                sd = [e for e in p.effects if is_call(e, qual="cascade.shm.client.shutdown")]
+                kl = [e for e in p.effects if e.kind == "call" and e.data.get("method") == "kill"]
+                row = {"shm_server_alive": shm_alive, "data_server_alive": ds_alive}
+                if p.exit[0] != "return" or bool(sd) != shm_alive or bool(kl) != ds_alive:
+                    ctx.violation("C05.R7", fi.qual, loc(fi), "each helper stopped iff it is alive",
+                                  f"{row}: shm shutdown x{len(sd)}, data-server kill x{len(kl)}; each helper process must be stopped exactly when it is still alive, "
+                                  f"independently of the other (a data server left running after the shm server died keeps the executor from exiting)", row=row)
+                else:
+                    ctx.ok("C05.R7", loc(fi), f"teardown | {row}")
     paths = ip.explore(fi, env={**base, "self.terminating": False})
     ctx.evals(len(paths))
     n = 0
